@@ -760,10 +760,10 @@ def correspondence(ctx, inputs, pool):
         if ndis:
             ctx.count("trace:cache_switched_off_mid_run")
         tcases.append((texpr, log[1], tag))
-        if ctx.thorough or ((t1r, t2r) in small_set and (cs, tune) in ((7, 0), (2, 1))):
+        if ((t1r, t2r) in small_set or (ctx.thorough and len(t1r) + len(t2r) < 1400)) and (cs, tune) in (((7, 0), (2, 1), (1, 0), (3, 10)) if ctx.thorough else ((7, 0), (2, 1))):
             cases.append((expr, log, tag))
         ccases.append((cexpr, True, tag))
-        if (t1r, t2r, rep) not in seen_o and (ctx.thorough or ((t1r, t2r) in small_set and not rep)):
+        if (t1r, t2r, rep) not in seen_o and (((t1r, t2r) in small_set and (ctx.thorough or not rep)) or (ctx.thorough and len(t1r) + len(t2r) < 1400)):
             seen_o.add((t1r, t2r, rep))
             ocases.append((oexpr, True, tag))
     ctx.note("trace_cache_hits", hits)
